@@ -72,11 +72,17 @@ ConcG(g, img) ==
 
 \* what decoding the encoding of g must return (format carve-outs): the SRID lives on the top-level geometry
 \* only (children are written without it); SRID 0 = no SRID; plain WKB has no SRID at all
+\* the layout a collection WITHOUT a fixed layout shows after decoding: the join of its members' layouts; with no
+\* member (carve-out of the property) the layout of its type code, which for a layout-less collection is XY
+JoinL(a, b) == LET z == a \in {"XYZ", "XYZM"} \/ b \in {"XYZ", "XYZM"}  m == a \in {"XYM", "XYZM"} \/ b \in {"XYM", "XYZM"} IN
+               IF z /\ m THEN "XYZM" ELSE IF z THEN "XYZ" ELSE IF m THEN "XYM" ELSE "XY"
+RECURSIVE JoinSeq(_, _)
+JoinSeq(ls, i) == IF i > Len(ls) THEN "XY" ELSE JoinL(ls[i], JoinSeq(ls, i + 1))
 RECURSIVE DropSrid(_)
 DropSrid(g) == IF g.t \in {"MPT", "MLS", "MPG", "GC"}
-               THEN [g EXCEPT !.srid = <<>>, !.body = [i \in DOMAIN g.body |-> DropSrid(g.body[i])],
-                              \* carve-out: an empty collection without a layout takes the layout of its type code
-                              !.l = IF g.t = "GC" /\ g.body = <<>> /\ g.l = "No" THEN "XY" ELSE g.l]
+               THEN LET kids == [i \in DOMAIN g.body |-> DropSrid(g.body[i])] IN
+                    [g EXCEPT !.srid = <<>>, !.body = kids,
+                              !.l = IF g.t = "GC" /\ g.l = "No" THEN JoinSeq([i \in DOMAIN kids |-> kids[i].l], 1) ELSE g.l]
                ELSE [g EXCEPT !.srid = <<>>]
 Canon(g, flavor) ==
   LET d == DropSrid(g) IN
